@@ -1,6 +1,7 @@
 """C12 - balanced 2-way partitioning obeys the cardinality bound and is optimal under it."""
 import random
 from runtime import harness as H
+from props import _ded as D
 from runtime import t3_part as T
 
 
@@ -17,4 +18,6 @@ def t3(rep, tier, seed):
 def run(rep, tier, seed):
     rep.level = "exploration"
     rep.assume("A1", "A4", "A6", "A8")
+    D.run_contracts(rep, "C12", D.CBLDM, tier)
     t3(rep, tier, seed)
+    D.link_falsifier(rep)
